@@ -149,4 +149,345 @@ theorem enumLayout_wf : ∀ (vs : Vars), leavesWfv vs = true →
       | some x => simp at ha; subst ha; exact wf_union (hacc x rfl) hfin
 end
 
+/-- the visits lie in `[lo, hi]` in order, each aligned to its own alignment,
+    none overlapping the next -/
+def Placed : Nat → List Visit → Nat → Prop
+  | lo, [], hi => lo ≤ hi
+  | lo, (_, off, t) :: r, hi =>
+    ∃ l, layoutOf t = some l ∧ lo ≤ off ∧ (0 < l.align → off % l.align = 0) ∧ Placed (off + l.size) r hi
+
+theorem placed_mono {lo lo' hi hi' : Nat} {vs : List Visit} (h : Placed lo vs hi) (h1 : lo' ≤ lo) (h2 : hi ≤ hi') :
+    Placed lo' vs hi' := by
+  induction vs generalizing lo lo' with
+  | nil => simp only [Placed] at *; omega
+  | cons v r ih =>
+    obtain ⟨i, off, t⟩ := v
+    simp only [Placed] at *
+    obtain ⟨l, hl, h3, h4, h5⟩ := h
+    exact ⟨l, hl, by omega, h4, ih h5 (Nat.le_refl _)⟩
+
+theorem placed_lo_le_hi {lo hi : Nat} {vs : List Visit} (h : Placed lo vs hi) : lo ≤ hi := by
+  induction vs generalizing lo with
+  | nil => simpa [Placed] using h
+  | cons v r ih =>
+    obtain ⟨i, off, t⟩ := v
+    simp only [Placed] at h
+    obtain ⟨l, _, h3, _, h5⟩ := h
+    have := ih h5
+    omega
+
+/-- `layout_of`'s placement walks exactly like `buildFields` and places the
+    fields in order without overlap -/
+theorem placement_placed : ∀ (ts : Tys) (i : Nat) (b : LayoutBuilder) (vs : List Visit),
+    placement ts i b = some vs →
+    ∃ b', buildFields ts b = some b' ∧ Placed b.size vs b'.size ∧ vs.length = ts.length
+  | .nil, i, b, vs, h => by
+    simp [placement] at h; subst h
+    exact ⟨b, rfl, by simp [Placed], rfl⟩
+  | .cons t ts, i, b, vs, h => by
+    cases hl : layoutOf t with
+    | none => simp [placement, hl] at h
+    | some l =>
+      cases hvs : placement ts (i + 1) (b.add l).1 with
+      | none => simp [placement, hl, hvs] at h
+      | some vs' =>
+        simp [placement, hl, hvs] at h; subst h
+        obtain ⟨b', hb', hp, hlen⟩ := placement_placed ts (i + 1) _ vs' hvs
+        refine ⟨b', by simp [buildFields, hl, hb'], ?_, by simp [Tys.length, hlen]⟩
+        simp only [Placed]
+        refine ⟨l, hl, ?_, ?_, ?_⟩
+        · exact nextMultipleOf_ge _ _
+        · intro hpos; exact nextMultipleOf_mod _ _ hpos
+        · simpa using hp
+
+theorem buildFields_placement : ∀ (ts : Tys) (i : Nat) (b b' : LayoutBuilder),
+    buildFields ts b = some b' → ∃ vs, placement ts i b = some vs
+  | .nil, i, b, b', h => ⟨[], rfl⟩
+  | .cons t ts, i, b, b', h => by
+    simp only [buildFields] at h
+    split at h
+    · simp at h
+    · rename_i l hl
+      obtain ⟨vs, hvs⟩ := buildFields_placement ts (i + 1) _ b' h
+      exact ⟨(i, (b.add l).2, t) :: vs, by simp [placement, hl, hvs]⟩
+
+theorem variantStart_eq : variantStart = { size := 1, align := 1 } := by decide
+
+theorem finish_size_ge (b : LayoutBuilder) : b.size ≤ b.finish.size := by
+  simp only [finish_size]; exact nextMultipleOf_ge _ _
+
+theorem union_size_ge (a b : Layout) : a.size ≤ (a.union b).size ∧ b.size ≤ (a.union b).size := by
+  simp only [union_size]
+  have h := nextMultipleOf_ge (Nat.max a.size b.size) (Nat.max a.align b.align)
+  rw [natMax_eq] at h ⊢
+  constructor <;> omega
+
+/-- every inhabited variant fits into the enum's layout -/
+theorem enumLayout_ge : ∀ (vs : Vars) (acc : Option Layout) (L : Layout),
+    enumLayout vs acc = some L →
+    (∀ a, acc = some a → a.size ≤ L.size) ∧
+    (∀ k fields b, vs.get? k = some fields → buildFields fields variantStart = some b →
+      b.finish.size ≤ L.size)
+  | .nil, acc, L, h => by
+    simp [enumLayout] at h; subst h
+    exact ⟨by intro a ha; cases ha; exact Nat.le_refl _, by intro k fields b hk; simp [Vars.get?] at hk⟩
+  | .cons v vs, acc, L, h => by
+    cases hb : buildFields v variantStart with
+    | none =>
+      simp [enumLayout, hb] at h
+      obtain ⟨h1, h2⟩ := enumLayout_ge vs acc L h
+      refine ⟨h1, ?_⟩
+      intro k fields b hk hbf
+      cases k with
+      | zero => simp [Vars.get?] at hk; subst hk; simp [hb] at hbf
+      | succ k => simp [Vars.get?] at hk; exact h2 k fields b hk hbf
+    | some bv =>
+      simp [enumLayout, hb] at h
+      obtain ⟨h1, h2⟩ := enumLayout_ge vs _ L h
+      constructor
+      · intro a ha; subst ha
+        have := h1 _ rfl
+        have := (union_size_ge a bv.finish).1
+        simp at *; omega
+      · intro k fields b hk hbf
+        cases k with
+        | zero =>
+          simp [Vars.get?] at hk; subst hk
+          rw [hb] at hbf; cases hbf
+          cases acc with
+          | none => exact h1 _ rfl
+          | some a =>
+            have := h1 _ rfl
+            have := (union_size_ge a bv.finish).2
+            simp at *; omega
+        | succ k => simp [Vars.get?] at hk; exact h2 k fields b hk hbf
+
+/-! ### the four offset loops agree -/
+
+/-- whenever `get_field` finds field `n` at an offset, the generated clone
+    function touches field `n` at that very offset (no hypothesis on the
+    record: `get_field` succeeding already forces fields `0..n` inhabited) -/
+theorem getField_mem_clone : ∀ (ts : Tys) (n i : Nat) (b : LayoutBuilder) (off : Nat) (t : Ty),
+    getField ts n b = .ok (off, t) → (i + n, off, t) ∈ cloneRecordLoop ts i b
+  | .nil, n, i, b, off, t, h => by simp [getField] at h
+  | .cons t' ts, n, i, b, off, t, h => by
+    cases hl : layoutOf t' with
+    | none => simp [getField, hl] at h
+    | some l =>
+      cases n with
+      | zero =>
+        simp [getField, hl] at h
+        obtain ⟨h1, h2⟩ := h
+        subst h1; subst h2
+        simp [cloneRecordLoop, hl]
+      | succ n =>
+        simp [getField, hl] at h
+        have := getField_mem_clone ts n (i + 1) _ off t h
+        have e : i + (n + 1) = i + 1 + n := by omega
+        simp only [cloneRecordLoop, hl]
+        rw [e]; exact List.mem_cons_of_mem _ this
+
+theorem getField_mem_eq : ∀ (ts : Tys) (n i : Nat) (b : LayoutBuilder) (off : Nat) (t : Ty),
+    getField ts n b = .ok (off, t) → (i + n, off, t) ∈ eqRecordLoop ts i b
+  | .nil, n, i, b, off, t, h => by simp [getField] at h
+  | .cons t' ts, n, i, b, off, t, h => by
+    cases hl : layoutOf t' with
+    | none => simp [getField, hl] at h
+    | some l =>
+      cases n with
+      | zero =>
+        simp [getField, hl] at h
+        obtain ⟨h1, h2⟩ := h
+        subst h1; subst h2
+        simp [eqRecordLoop, hl]
+      | succ n =>
+        simp [getField, hl] at h
+        have := getField_mem_eq ts n (i + 1) _ off t h
+        have e : i + (n + 1) = i + 1 + n := by omega
+        simp only [eqRecordLoop, hl]
+        rw [e]; exact List.mem_cons_of_mem _ this
+
+theorem getField_mem_drop : ∀ (ts : Tys) (n i : Nat) (b : LayoutBuilder) (off : Nat) (t : Ty),
+    getField ts n b = .ok (off, t) → needsDrop t = true → (i + n, off, t) ∈ dropRecordLoop ts i b
+  | .nil, n, i, b, off, t, h, _ => by simp [getField] at h
+  | .cons t' ts, n, i, b, off, t, h, hd => by
+    cases hl : layoutOf t' with
+    | none => simp [getField, hl] at h
+    | some l =>
+      cases n with
+      | zero =>
+        simp [getField, hl] at h
+        obtain ⟨h1, h2⟩ := h
+        subst h2
+        simp [dropRecordLoop, hl, hd, h1]
+      | succ n =>
+        simp [getField, hl] at h
+        have := getField_mem_drop ts n (i + 1) _ off t h hd
+        have e : i + (n + 1) = i + 1 + n := by omega
+        rw [e]
+        simp only [dropRecordLoop, hl]
+        split
+        · exact this
+        · exact List.mem_cons_of_mem _ this
+
+theorem getField_mem_placement : ∀ (ts : Tys) (n i : Nat) (b : LayoutBuilder) (off : Nat) (t : Ty)
+    (vs : List Visit), getField ts n b = .ok (off, t) → placement ts i b = some vs → (i + n, off, t) ∈ vs
+  | .nil, n, i, b, off, t, vs, h, _ => by simp [getField] at h
+  | .cons t' ts, n, i, b, off, t, vs, h, hp => by
+    cases hl : layoutOf t' with
+    | none => simp [getField, hl] at h
+    | some l =>
+      cases hvs : placement ts (i + 1) (b.add l).1 with
+      | none => simp [placement, hl, hvs] at hp
+      | some vs' =>
+        simp [placement, hl, hvs] at hp; subst hp
+        cases n with
+        | zero =>
+          simp [getField, hl] at h
+          simp [h.1, h.2]
+        | succ n =>
+          simp [getField, hl] at h
+          have := getField_mem_placement ts n (i + 1) _ off t vs' h hvs
+          have e : i + (n + 1) = i + 1 + n := by omega
+          rw [e]; exact List.mem_cons_of_mem _ this
+
+/-- on an inhabited record the loops of clone and eq produce exactly
+    `layout_of`'s placement; drop produces the part that needs dropping -/
+theorem placement_loops : ∀ (ts : Tys) (i : Nat) (b : LayoutBuilder) (vs : List Visit),
+    placement ts i b = some vs →
+    cloneRecordLoop ts i b = vs ∧ eqRecordLoop ts i b = vs ∧
+    dropRecordLoop ts i b = vs.filter (fun v => needsDrop v.2.2)
+  | .nil, i, b, vs, h => by simp [placement] at h; subst h; simp [cloneRecordLoop, eqRecordLoop, dropRecordLoop]
+  | .cons t ts, i, b, vs, h => by
+    cases hl : layoutOf t with
+    | none => simp [placement, hl] at h
+    | some l =>
+      cases hvs : placement ts (i + 1) (b.add l).1 with
+      | none => simp [placement, hl, hvs] at h
+      | some vs' =>
+        simp [placement, hl, hvs] at h; subst h
+        obtain ⟨h1, h2, h3⟩ := placement_loops ts (i + 1) _ vs' hvs
+        refine ⟨by simp [cloneRecordLoop, hl, h1], by simp [eqRecordLoop, hl, h2], ?_⟩
+        simp only [dropRecordLoop, hl]
+        cases hd : needsDrop t <;> simp [hd, h3, List.filter]
+
+/-- on an inhabited record / variant `get_field` finds every field, at the
+    offset `layout_of` placed it -/
+theorem getField_total : ∀ (ts : Tys) (n i : Nat) (b : LayoutBuilder) (vs : List Visit),
+    placement ts i b = some vs → n < ts.length →
+    ∃ off t, getField ts n b = .ok (off, t) ∧ ts.get? n = some t ∧ (i + n, off, t) ∈ vs
+  | .nil, n, i, b, vs, _, hn => by simp [Tys.length] at hn
+  | .cons t' ts, n, i, b, vs, hp, hn => by
+    cases hl : layoutOf t' with
+    | none => simp [placement, hl] at hp
+    | some l =>
+      cases hvs : placement ts (i + 1) (b.add l).1 with
+      | none => simp [placement, hl, hvs] at hp
+      | some vs' =>
+        simp [placement, hl, hvs] at hp; subst hp
+        cases n with
+        | zero => exact ⟨(b.add l).2, t', by simp [getField, hl], by simp [Tys.get?], by simp⟩
+        | succ n =>
+          simp [Tys.length] at hn
+          obtain ⟨off, t, h1, h2, h3⟩ := getField_total ts n (i + 1) _ vs' hvs hn
+          refine ⟨off, t, by simpa [getField, hl] using h1, by simpa [Tys.get?] using h2, ?_⟩
+          have e : i + (n + 1) = i + 1 + n := by omega
+          rw [e]; exact List.mem_cons_of_mem _ h3
+
+/-- the `take(n + 1)` loop of the `VariantField` arm computes what
+    `get_field`'s loop computes -/
+theorem variantFieldLoop_of_getField : ∀ (ts : Tys) (n : Nat) (b : LayoutBuilder) (last : Option (Nat × Ty))
+    (r : Nat × Ty), getField ts n b = .ok r → variantFieldLoop ts (n + 1) b last = some (some r)
+  | .nil, n, b, last, r, h => by simp [getField] at h
+  | .cons t' ts, n, b, last, r, h => by
+    cases hl : layoutOf t' with
+    | none => simp [getField, hl] at h
+    | some l =>
+      cases n with
+      | zero =>
+        simp [getField, hl] at h
+        subst h
+        simp [variantFieldLoop, hl]
+      | succ n =>
+        simp [getField, hl] at h
+        have := variantFieldLoop_of_getField ts n _ (some ((b.add l).2, t')) r h
+        simpa [variantFieldLoop, hl] using this
+
+/-- on an inhabited variant the three per-variant loops produce exactly
+    `layout_of`'s placement -/
+theorem placement_variant_loops : ∀ (ts : Tys) (i : Nat) (b : LayoutBuilder) (vs : List Visit),
+    placement ts i b = some vs →
+    ∃ ls, collectLayouts ts = some ls ∧ cloneVariantLoop ls i b = vs ∧
+      dropVariantLoop ls i b = vs ∧ eqVariantLoop ls i b = vs
+  | .nil, i, b, vs, h => by
+    simp [placement] at h; subst h
+    exact ⟨[], rfl, rfl, rfl, rfl⟩
+  | .cons t ts, i, b, vs, h => by
+    cases hl : layoutOf t with
+    | none => simp [placement, hl] at h
+    | some l =>
+      cases hvs : placement ts (i + 1) (b.add l).1 with
+      | none => simp [placement, hl, hvs] at h
+      | some vs' =>
+        simp [placement, hl, hvs] at h; subst h
+        obtain ⟨ls, h0, h1, h2, h3⟩ := placement_variant_loops ts (i + 1) _ vs' hvs
+        refine ⟨(t, l) :: ls, by simp [collectLayouts, hl, h0], ?_, ?_, ?_⟩
+        · simp [cloneVariantLoop, h1]
+        · simp [dropVariantLoop, h2]
+        · simp [eqVariantLoop, h3]
+
+theorem collectLayouts_placement : ∀ (ts : Tys) (i : Nat) (b : LayoutBuilder) (ls : List (Ty × Layout)),
+    collectLayouts ts = some ls → ∃ vs, placement ts i b = some vs
+  | .nil, i, b, ls, h => ⟨[], rfl⟩
+  | .cons t ts, i, b, ls, h => by
+    cases hl : layoutOf t with
+    | none => simp [collectLayouts, hl] at h
+    | some l =>
+      cases hc : collectLayouts ts with
+      | none => simp [collectLayouts, hl, hc] at h
+      | some ls' =>
+        obtain ⟨vs, hvs⟩ := collectLayouts_placement ts (i + 1) (b.add l).1 ls' hc
+        exact ⟨(i, (b.add l).2, t) :: vs, by simp [placement, hl, hvs]⟩
+
+theorem collectLayouts_none_placement : ∀ (ts : Tys) (i : Nat) (b : LayoutBuilder),
+    collectLayouts ts = none → placement ts i b = none ∧ buildFields ts b = none
+  | .nil, i, b, h => by simp [collectLayouts] at h
+  | .cons t ts, i, b, h => by
+    cases hl : layoutOf t with
+    | none => simp [placement, buildFields, hl]
+    | some l =>
+      cases hc : collectLayouts ts with
+      | none =>
+        obtain ⟨h1, h2⟩ := collectLayouts_none_placement ts (i + 1) (b.add l).1 hc
+        simp [placement, buildFields, hl, h1, h2]
+      | some ls' => simp [collectLayouts, hl, hc] at h
+
+/-- what `Placed` says, spelled out: every visit has a layout, lies inside
+    `[lo, hi]`, is aligned; any two are in order and do not overlap -/
+theorem placed_explicit {lo hi : Nat} {vs : List Visit} (h : Placed lo vs hi) :
+    (∀ v ∈ vs, ∃ l, layoutOf v.2.2 = some l ∧ lo ≤ v.2.1 ∧ v.2.1 + l.size ≤ hi ∧
+        (0 < l.align → v.2.1 % l.align = 0)) ∧
+    vs.Pairwise (fun a b => ∀ la, layoutOf a.2.2 = some la → a.2.1 + la.size ≤ b.2.1) := by
+  induction vs generalizing lo with
+  | nil => simp
+  | cons v r ih =>
+    obtain ⟨i, off, t⟩ := v
+    simp only [Placed] at h
+    obtain ⟨l, hl, h1, h2, h3⟩ := h
+    obtain ⟨ih1, ih2⟩ := ih h3
+    have hle := placed_lo_le_hi h3
+    constructor
+    · intro v hv
+      simp at hv
+      rcases hv with rfl | hv
+      · exact ⟨l, hl, h1, hle, h2⟩
+      · obtain ⟨l', a, b, c, d⟩ := ih1 v hv
+        exact ⟨l', a, by omega, c, d⟩
+    · refine List.Pairwise.cons ?_ ih2
+      intro b hb la hla
+      simp at hla
+      rw [hl] at hla; cases hla
+      obtain ⟨_, _, c, _, _⟩ := ih1 b hb
+      exact c
+
 end RotoV.Layout
